@@ -73,7 +73,7 @@ class C01(EvalCheck):
                 # axes) in a 1-d or 2-d table, with the knot layouts where a wrong span shows: order 0 or multiple knots
                 nd = rng.choice([1, 2])
                 t = gen_table(rng, ndim=nd, max_coefs=4000, pattern=rng.choice(["mixed", "const"]),
-                              knot_style=rng.choice(["uniform", "multi", "irregular", "repeated", "clamped"]),
+                              knot_style=rng.choice(["uniform", "multi", "irregular", "repeated", "clamped", "symm"]),
                               coef_style=rng.choice(["rand", "posneg"]), maxextra=(400 if nd == 1 else 60))
                 if rng.chance(0.5):
                     d = rng.below(t.ndim)          # make one axis order 0 (piecewise constant: every wrong span shows)
